@@ -667,7 +667,18 @@ func (self *RefExp) EncodeJSON(buf *bytes.Buffer) error {
 			dims = append(dims, k)
 		}
 		sort.Slice(dims, func(i, j int) bool {
-			return dims[i].Id < dims[j].Id
+			if dims[i].Id != dims[j].Id {
+				return dims[i].Id < dims[j].Id
+			}
+			// Calls in different pipelines may have the same name.
+			li, lj := &dims[i].Node.Loc, &dims[j].Node.Loc
+			if li.File != lj.File && li.File != nil && lj.File != nil &&
+				li.File.FullPath != lj.File.FullPath {
+				return li.File.FullPath < lj.File.FullPath
+			} else if li.Line != lj.Line {
+				return li.Line < lj.Line
+			}
+			return li.Col < lj.Col
 		})
 		for _, s := range dims {
 			i := self.Forks[s]
